@@ -38,6 +38,11 @@ def check(pid, tier, replay=None):
             rnd.shuffle(rest)
             cases = must + rest[:10]
         cases += cross
+        # one subscriber, two charging sessions: the release of one (answers held for 2 s, or lost) followed at once by
+        # updates of the other
+        for ifc, pos in (("abmf", 0), ("rating", 1), ("rating", 2)):
+            for f0 in ("slow", "drop"):
+                cases.append(dict(id="C19-rel-%s%d-%s" % (ifc, pos, f0), iface=ifc, fates=[f0, "prompt", "prompt"], pos=pos, dense=False, release2=True))
         mode, chunk, nw = "link", 1, 16
     else:
         if tier == "quick":
